@@ -509,6 +509,26 @@ func (x *Exec) lockOp(f *frame, in ssa.Instruction, c *ssa.CallCommon, args []Va
 			x.inCrit = false
 		}
 		x.assumed[fmt.Sprintf("%s: critical section under %s.%s treated as one atomic action (all accesses to the protected state are between Lock and the deferred/last Unlock — checked; other goroutines act only between operations)", x.short, typeShort(ownerT), fieldName)] = true
+		if mon != nil && len(mon.Invs) > 0 {
+			// the declared invariant of this mutex: assumed when the lock is taken, to be
+			// re-established whenever it is released
+			if lock {
+				for _, inv := range mon.Invs {
+					x.assume(st, x.evalMonInv(inv, named, ov, st))
+				}
+			} else {
+				for k, inv := range mon.Invs {
+					t := x.evalMonInv(inv, named, ov, st)
+					props := mon.Props
+					if len(props) == 0 {
+						props = x.props()
+					}
+					o := x.oblige(st, "mon-inv", fmt.Sprintf("mon-inv:%d:%d", x.ordinalPeek("unlock")+1, k+1), t, in.Pos(), false, props)
+					o.Clause, o.Line = inv.Text, inv.Line
+				}
+				x.ordinal("unlock")
+			}
+		}
 		return
 	}
 	if mon == nil {
